@@ -22,6 +22,9 @@ func main() {
 	profile := fs.String("profile", "rich", "generator profile")
 	in := fs.String("in", "", "input file (edges / walks)")
 	catalog := fs.String("catalog", "", "catalogue JSON emitted by TLC")
+	tables := fs.String("tables", "", "expected-value tables emitted by TLC")
+	batches := fs.String("batches", "", "batches emitted by TLC")
+	quick := fs.Bool("quick", false, "quick tier (sampled flag combinations)")
 	fs.Parse(os.Args[2:])
 	defer func() {
 		if r := recover(); r != nil {
@@ -50,6 +53,8 @@ func main() {
 		runLifeProfile(l, *profile, *n, *steps)
 		tr.Close()
 		fmt.Printf("events=%d\n", tr.N)
+	case "postiter":
+		runPostIter(*in, *tables, *batches, *dir, *out, *quick, *seed)
 	case "life-rerun":
 		tr := NewTracer(*out)
 		l := NewLife(tr, r, *dir)
@@ -77,6 +82,13 @@ func runLifeProfile(l *Life, profile string, n, steps int) {
 		case "lean":
 			p = LeanProfile()
 			l.light = true
+		case "mergey":
+			p = MergeyProfile()
+		case "leanmerge":
+			p = LeanProfile()
+			l.light = true
+			l.LeanMergeScenario(&p, fmt.Sprintf("%s-%d", profile, i))
+			continue
 		case "stored":
 			p = RichProfile()
 			p.StoredHeavy = true
